@@ -75,6 +75,8 @@ package aggregate
 //@   requires ctx != nil && aggInv(a) && allocated(a.params)
 //@   requires tables-initialized-once: a.once != 0 ==> forall j in 0..len(a.workers) :: a.workers[j].started
 //@   panics may
+//@   ensures[C15] child-error-surfaces: ncalls("model.VectorOperator.Next") >= 1 && callres("model.VectorOperator.Next", 1, 1) != nil ==> result1 != nil
+//@   ensures[C15] second-child-error-surfaces: ncalls("model.VectorOperator.Next") >= 2 && callres("model.VectorOperator.Next", 2, 1) != nil ==> result1 != nil
 //@   ensures[C18] error-means-no-batch: result1 != nil ==> isnil(result0)
 //@   ensures[C04,C07,C18] one-output-vector-per-input-vector: result1 == nil && !isnil(result0) ==> len(result0) == len(callres("model.VectorOperator.Next", 1, 0))
 //@   ensures[C04] parameter-operator-pulled-once-per-batch: result1 == nil && !isnil(result0) ==>
@@ -127,6 +129,8 @@ package aggregate
 //@   requires ctx != nil && a != nil && a.next != nil && a.paramOp != nil && a.paramOp.oneSamplePerStep && a.vectorPool != nil && allocated(a.params)
 //@   requires heaps-built-once: a.once != 0 ==> kInv(a) && heapsEmpty(a) && len(a.inputToHeap) == a.next.nSeries
 //@   panics may
+//@   ensures[C15] child-error-surfaces: ncalls("model.VectorOperator.Next") >= 1 && callres("model.VectorOperator.Next", 1, 1) != nil ==> result1 != nil
+//@   ensures[C15] second-child-error-surfaces: ncalls("model.VectorOperator.Next") >= 2 && callres("model.VectorOperator.Next", 2, 1) != nil ==> result1 != nil
 //@   ensures[C18] error-means-no-batch: result1 != nil ==> isnil(result0)
 //@   ensures[C04,C07,C18] one-output-vector-per-input-vector: result1 == nil && !isnil(result0) ==> len(result0) == len(callres("model.VectorOperator.Next", 1, 0))
 //@   at line "defer a.next.GetPool().PutVectors(in)" assume sibling-lockstep-batch-fits: len(in) <= len(a.params)
